@@ -290,6 +290,22 @@ def p_gateway( ctx ):
                      'an exception while the results are being harvested ( timeout, cut connection ) does not discard the gateway: the late reply stays in flight, and the next read - contexts restart at 0 - is answered with it: another request\'s data, without any error' )
         else:
             res.ok( src, mg, 'maintain_gateway keeps the gateway context open while a decorated generator method ( %s ) is iterated' % ', '.join( sorted( { f.name for f in gens } )) if gens else 'maintain_gateway decorates no generator method' )
+        # abandoned by its consumer with results still to come, the wrapper re-raises inside `with inst:` so that the gateway is discarded -
+        # but the decorated generator is still SUSPENDED inside its own `with self.gateway as connection:` and holds the connection's lock:
+        # discarding a connected gateway ( a Forward Close, `with self:` on that connection ) then waits for it forever.  The re-raise in
+        # the GeneratorExit handler is preceded by <results>.close()
+        for f in iterating:
+            for h in [ h_ for h_ in ast.walk( f ) if isinstance( h_, ast.ExceptHandler ) and dotted( h_.type ) == 'GeneratorExit' ]:
+                for r in [ r_ for r_ in ast.walk( h ) if isinstance( r_, ast.Raise ) ]:
+                    par = src.parent.get( r )
+                    blk = next(( getattr( par, f_ ) for f_ in ( 'body', 'orelse' ) if r in getattr( par, f_, [] )), [] )
+                    before = blk[:blk.index( r )] if r in blk else []
+                    closed = any( isinstance( b, ast.Expr ) and isinstance( b.value, ast.Call ) and isinstance( b.value.func, ast.Attribute ) and b.value.func.attr == 'close' for b in before )
+                    if closed:
+                        res.ok( src, r, 'maintain_gateway: an abandoned generator is closed before the gateway is discarded' )
+                    else:
+                        res.bad( src, r, 'maintain_gateway: abandoned with results pending, the gateway is discarded while the decorated generator is still suspended',
+                                 'the suspended generator holds the connection ( `with self.gateway as connection:` ): closing a connected gateway waits for that lock - reader.close() never returns, and the proxy is never usable again' )
     og = src.get( 'proxy.open_gateway' )
     w = [ x for x in ast.walk( og ) if isinstance( x, ast.With ) and any( txt( it.context_expr ) == 'self.gateway_lock' for it in x.items ) ]
     cr = [ i for i in ast.walk( og ) if isinstance( i, ast.If ) and pmatch( i.test, 'self.gateway is None' ) and pfind( i, 'self.gateway = self.gateway_class( **_k )' ) or
